@@ -18,21 +18,24 @@ abbrev Var := Nat
 abbrev Obj := Nat
 abbrev Val := Nat
 
-/-- Statements of the IR.  `call f args ret` is resolved by `flatten` (callee `f` of the module:
-    `params[i] := args[i]`, `ret := callee.ret`, callee body joins the statement set). -/
+/-- Statements of the IR.  `call f args rets` is resolved by `flatten` (callee `f` of the module:
+    `params[i] := args[i]`, `rets[j] := callee.rets[j]`, callee body joins the statement set).
+    The translator passes every value on two channels: the object itself and a *content* variable
+    standing for everything reachable inside it, hence two parameters per Python parameter and two
+    return variables. -/
 inductive Stmt where
   | param (x : Var)          -- `x` is a parameter of the entry point: it points at a caller-owned object
   | alias (x y : Var)        -- `x := y` (same object): assignment, slice, `.T`, `.to_numpy()`, `np.asarray`
   | fresh (x : Var)          -- `x := <new object>`: `.copy()`, arithmetic, fancy indexing, constructors
   | write (x : Var)          -- the object `x` points at is modified in place
-  | call (f : Nat) (args : List Var) (ret : Var)
+  | call (f : Nat) (args : List Var) (rets : List Var)
   deriving DecidableEq, Repr, Inhabited
 
 abbrev Program := List Stmt
 
 structure Fn where
   params : List Var
-  ret : Var
+  rets : List Var
   body : List Stmt
   deriving Repr, Inhabited
 
@@ -80,7 +83,7 @@ def stmtVars : Stmt → List Var
   | .alias x y => [x, y]
   | .fresh x => [x]
   | .write x => [x]
-  | .call _ args ret => ret :: args
+  | .call _ args rets => rets ++ args
 
 def varBound (p : Program) (roots : List Var) : Nat :=
   (p.foldl (fun m s => (stmtVars s).foldl Nat.max m) (roots.foldl Nat.max 0)) + 1
@@ -101,15 +104,17 @@ def iterT (p : Program) : Nat → Array Bool → Array Bool
 
 /-- may-alias closure of `roots` under the alias edges of `p` (least fixed point, computed by
     rounds; the checker re-validates closedness, so nothing needs to be proved about this function) -/
-def taint (p : Program) (roots : List Var) : Var → Bool :=
+def taintArr (p : Program) (roots : List Var) : Array Bool :=
   let n := varBound p roots
   let T0 := roots.foldl (fun T x => T.setIfInBounds x true) (Array.replicate n false)
-  let T := iterT p (p.length + 1) T0
-  fun x => T.getD x false
+  iterT p (p.length + 1) T0
 
-/-- no object reachable (by may-alias) from `roots` is written -/
+def taint (p : Program) (roots : List Var) (x : Var) : Bool := (taintArr p roots).getD x false
+
+/-- no object reachable (by may-alias) from `roots` is written.  (The closure is computed once.) -/
 def safeFrom (p : Program) (roots : List Var) : Bool :=
-  okFor p (taint p roots) roots
+  let T := taintArr p roots
+  okFor p (fun x => T.getD x false) roots
 
 /-- **the checker**: no `write` on a variable that may alias a parameter -/
 def noParamWrite (p : Program) : Bool := safeFrom p (params p)
@@ -139,9 +144,10 @@ def reachFuel (m : Module) : Nat :=
 
 /-- a call becomes parameter/return bindings; an unknown callee writes its arguments -/
 def expand (m : Module) : Stmt → List Stmt
-  | .call f args ret =>
+  | .call f args rets =>
     match m[f]? with
-    | some fn => .alias ret fn.ret :: List.zipWith (fun p a => Stmt.alias p a) fn.params args
+    | some fn => List.zipWith (fun r q => Stmt.alias r q) rets fn.rets ++
+        List.zipWith (fun p a => Stmt.alias p a) fn.params args
     | none => args.map .write
   | .param _ => []
   | s => [s]
